@@ -618,6 +618,7 @@ def run_mappable(qi, traps):
         tmpl.target_index(idx, "l")
         tmpl.add(Pulse.ConstantPulse(100, 1.0, 0.0, 0.0, post_phase_shift=0.5), "l")
         tmpl.phase_shift_index(0.25, 0, basis="digital")
+        tmpl.phase_shift(0.125, basis="digital")  # no targets given: every qubit OF THE BUILT REGISTER (fewer than declared when k < 3)
         for i in range(k):
             # every insertion order of the mapping
             for order in itertools.permutations(range(k)):
@@ -641,6 +642,7 @@ def run_mappable(qi, traps):
                 d.target_index(i, "l")
                 d.add(Pulse.ConstantPulse(100, 1.0, 0.0, 0.0, post_phase_shift=0.5), "l")
                 d.phase_shift_index(0.25, 0, basis="digital")
+                d.phase_shift(0.125, basis="digital")
                 sb, sd = snapshot.snap(b, False), snapshot.snap(d, False)
                 # a built sequence keeps (unobservable) phase-reference entries of qubits that were not mapped
                 for basis in sb.basis_ref:
